@@ -325,11 +325,17 @@ func verifC21step(g verifC21gen, s *PSlice, r *verifC21ref, budget int, dup, end
 func verifC21history(g verifC21gen, base []byte, maxBins, steps, budget int) (*PSlice, *verifC21ref, bool) {
 	s := New(maxBins, boson.NewAddress(base))
 	r := &verifC21ref{}
+	return s, r, verifC21continue(g, s, r, steps, budget)
+}
+
+// verifC21continue runs a symbolic history on an existing set s with
+// reference r; reports whether a batch repeated an absent address.
+func verifC21continue(g verifC21gen, s *PSlice, r *verifC21ref, steps, budget int) bool {
 	dup, ended := false, false
 	for i := 0; i < steps; i++ {
 		budget -= verifC21step(g, s, r, budget, &dup, &ended)
 	}
-	return s, r, dup
+	return dup
 }
 
 // VerifC21_HistorySym: short histories over completely symbolic base and
@@ -374,4 +380,39 @@ func VerifC21_HistoryBins() {
 	zzverif.Region("C21/batch-repeats-absent-address", dup)
 	verifC21check(s, r, base, 3, false, dup)
 	zzverif.Reach("C21-history-bins")
+}
+
+// VerifC21_GrownBins: the same content clauses for histories that start from
+// a set that was filled by single additions. Single additions grow a bin by
+// append, so such a bin has spare capacity behind its length (3 elements in an
+// array of 4, 5 in an array of 8), whereas bins built by a batch or rebuilt by
+// a removal are exact-size - the only shapes the short histories of
+// VerifC21_HistoryBins can reach. The prefix is n single Adds of pairwise
+// distinct concrete addresses into one bin (first byte 0xA5^pattern, last
+// byte 1..n); it is part of the history (recorded in the reference set) and
+// is followed by a symbolic history as in VerifC21_HistoryBins, whose
+// addresses are free to equal prefix addresses (re-add, remove, batch that
+// mixes members and new addresses).
+func VerifC21_GrownBins() {
+	steps := zzverif.Param("steps", 1, 2)
+	budget := zzverif.Param("addresses", 2, 2)
+	npat := zzverif.Param("patterns", 2, 2)
+	zzverif.Unwind(64)
+	const maxBins = 3
+	g := verifC21gen{mode: 1, pats: verifC21pats[:npat]}
+	base := g.base()
+	s := New(maxBins, boson.NewAddress(base))
+	r := &verifC21ref{}
+	// 3 elements in an array of 4; thorough tier also 5 in an array of 8
+	n := []int{3, 5}[zzverif.Choose("prefix-length", zzverif.Param("prefix-lengths", 1, 2))]
+	first := 0xA5 ^ g.pats[zzverif.Choose("prefix-prox", npat)]
+	for k := 1; k <= n; k++ {
+		a := []byte{first, 0, 0, 0, byte(k)}
+		s.Add(boson.NewAddress(a))
+		r.set(a, true)
+	}
+	dup := verifC21continue(g, s, r, steps, budget)
+	zzverif.Region("C21/batch-repeats-absent-address", dup)
+	verifC21check(s, r, base, maxBins, false, dup)
+	zzverif.Reach("C21-grown-bins")
 }
